@@ -131,6 +131,9 @@ type SolveStats struct {
 	mu        sync.Mutex
 	ByBackend map[string]int
 	Seconds   map[string]float64
+	// thorough tier only: how many obligations were proved by exactly 1, 2, 3 solvers independently
+	ProvedBy      map[int]int
+	Disagreements []string
 }
 
 // Discharge solves every obligation (16-way parallel).
@@ -209,6 +212,32 @@ func (ex *Exec) Discharge(outDir string, timeoutS, seed, workers int, agree bool
 			}
 			r, times, _ := race(file, tmo, seed, "")
 			o.Status, o.Solver, o.Seconds, o.RawOut = r.status, r.solver, r.secs, r.out
+			if agree && r.status == "unsat" {
+				// thorough tier: the other solvers are asked too (short timeout), independently of the winner
+				provers := 1
+				for _, sp := range solvers {
+					if sp.Name == r.solver {
+						continue
+					}
+					r2 := runSolver(context.Background(), sp, file, 10, seed)
+					times[sp.Name] += r2.secs
+					switch r2.status {
+					case "unsat":
+						provers++
+					case "sat":
+						o.RawOut += "\nDISAGREEMENT: " + sp.Name + " says sat"
+						stats.mu.Lock()
+						stats.Disagreements = append(stats.Disagreements, o.Name+": "+r.solver+" unsat, "+sp.Name+" sat")
+						stats.mu.Unlock()
+					}
+				}
+				stats.mu.Lock()
+				if stats.ProvedBy == nil {
+					stats.ProvedBy = map[int]int{}
+				}
+				stats.ProvedBy[provers]++
+				stats.mu.Unlock()
+			}
 			stats.mu.Lock()
 			for k, v := range times {
 				stats.Seconds[k] += v
